@@ -127,4 +127,33 @@ def httpRequest (r : Routes) (verb path : Text) : Request :=
   | some p => .endpoint p.endpoint
   | none => .path path
 
+/-! ## the transport's decision before any dispatch: WSDL request or RPC (`WsgiApplication.__call__`,
+    `is_wsdl_request`, spyne/server/wsgi.py:333-355) -/
+
+def asciiUpper (c : Char) : Char := if 'a' ≤ c ∧ c ≤ 'z' then Char.ofNat (c.toNat - 32) else c
+def asciiLower (c : Char) : Char := if 'A' ≤ c ∧ c ≤ 'Z' then Char.ofNat (c.toNat + 32) else c
+
+/-- `s.endswith(suf)` -/
+def endsWith (s suf : Text) : Bool := isPrefix suf.reverse s.reverse
+
+/-- `QUERY_STRING.split('=')[0]` -/
+def qsFirstName (q : Text) : Text := q.takeWhile (· ≠ '=')
+
+/-- `is_wsdl_request` (verbs and query strings are ASCII in the model) -/
+def isWsdlRequest (F : Facts11) (verb path query : Text) : Bool :=
+  (if F.wsdlGetOnly then verb.map asciiUpper == "GET".toList else true) &&
+  ((match F.wsdlQuery with
+    | .firstName => (qsFirstName query).map asciiLower == "wsdl".toList
+    | .other => query.map asciiLower == "wsdl".toList) ||
+   (match F.wsdlPath with
+    | .dotWsdlSuffix => endsWith path ".wsdl".toList
+    | .wsdlSuffix => endsWith path "wsdl".toList
+    | .other => false))
+
+/-- one HTTP request line against a WsgiApplication with HttpRpc: first the WSDL decision, then the method
+    name from an HttpPattern or the last path segment, then the lookup -/
+def serveHttp (F : Facts11) (r : Routes) (tns verb path query : Text) : Resp :=
+  if isWsdlRequest F verb path query then .wsdl
+  else serve F r tns (httpRequest r verb path)
+
 end SpyneModel.Dispatch
